@@ -205,7 +205,9 @@ def gen_case(rng):
     aws = []
     for c in range(ncall):
         aws.append({'dur': rng.choice([0, 0, 1, 3, 8]), 'raise': rng.random() < 0.3,
-                    'kind': rng.choice(['coro', 'coro', 'task']) if mode == 'idle' else 'coro',
+                    'kind': (rng.choice(['coro', 'coro', 'task']) if mode == 'idle' else
+                             # a future of the target that was already resolved when the target was closed
+                             rng.choice(['coro', 'donefut']) if mode == 'closed' else 'coro'),
                     'start': rng.choice([0, 0, 1, 2])})
     return {'mode': mode, 'aws': aws}
 
@@ -241,6 +243,7 @@ def run_case(case, seed, pct=0, choices=None):
     mode = case['mode']
     res = {}
     info = {}
+    predone = {}
 
     def make_aw(c, spec):
         async def work():
@@ -254,6 +257,8 @@ def run_case(case, seed, pct=0, choices=None):
         if spec['kind'] == 'task':
             E.labels.append(f'pre:{c}')
             return T.create_task(work())
+        if spec['kind'] == 'donefut':
+            return predone[c]
         return work()
 
     def caller(c, spec):
@@ -297,6 +302,14 @@ def run_case(case, seed, pct=0, choices=None):
             stop = A.loop_in_thread(T)
             res['lit_running_on_return'] = BLoop.is_running(T)
         if mode == 'closed':
+            for c, spec in enumerate(case['aws']):
+                if spec['kind'] == 'donefut':
+                    f = T.create_future()
+                    if spec['raise']:
+                        f.set_exception(Boom(c))
+                    else:
+                        f.set_result(('value', c))
+                    predone[c] = f
             T.close()
             E.labels.append('close')
         for c, spec in enumerate(case['aws']):
